@@ -1059,8 +1059,12 @@ fn exec_inner(world: &mut World, ctx: &Shared, op: &Op) -> String {
                             RAct::GetOtherMut { h, derefs, write } => match resolve(ctx, h) {
                                 None => write!(out, " {}:-", id).unwrap(),
                                 Some(e) => {
+                                    let own = item.get().val();
                                     let old = item.get_other(e).map(|c| c.val());
                                     match item.get_other_mut(e) { Some(acc) => { apply_access::<T, _>(acc, derefs, write); write!(out, " {}:some={}", id, old.unwrap_or(-999)).unwrap() } None => write!(out, " {}:none", id).unwrap() }
+                                    // the item is still the item of ITS entity: a shared read through it (no event) gives
+                                    // its own component, as before the look-up of the other entity
+                                    if e.id() != id && item.get().val() != own { write!(out, " {}:!retargeted", id).unwrap(); }
                                 }
                             },
                         }
